@@ -690,7 +690,7 @@ impl Property for C04 {
     }
     fn rule(&self) -> String {
         "histories of context operations from an empty HashMapContext over names {a, b}, 8 values (one per type, two tuple lengths, two ints), 2 user functions: set_value, `n = v`, the 8 `n op= v`, reads, the three clears, set_function, the builtin switch, \
-         clone-and-continue-on-either-copy — all histories up to a length bound over the ~120-operation alphabet plus random long ones; after every step the return value and the complete observable state (lookup of both names, sorted listing, function lookup, switch, of both copies) \
+         clone-and-continue-on-either-copy — EXHAUSTIVE breadth-first exploration of the abstract state space of one context (every reachable state, by its shortest history, x every operation; the bucket `bfs-states-N` reports the number of states), all two-step histories involving a clone, random three-step and 60-step histories over both copies; after every step the return value and the complete observable state (lookup of both names, sorted listing, function lookup, switch, of both copies) \
          of the real HashMapContext must equal those of the abstract map model, and `x op= v` must leave what `x = x op v` leaves. non-trivial = the history contains a rejected (type error) or overwriting assignment; distinct = distinct history"
             .into()
     }
@@ -705,19 +705,56 @@ impl Property for C04 {
         let mut cases = Vec::new();
         let mk = |hist: &[&String], bucket: &str| -> Case {
             let mut lines = vec!["new 0 hm".to_string(), "new 1 hm".to_string()];
-            for op in hist {
+            for (i, op) in hist.iter().enumerate() {
                 lines.push((*op).clone());
-                observe(&mut lines);
+                // observe the complete state after the last two steps (earlier ones were observed by shorter histories)
+                if i + 2 >= hist.len() {
+                    observe(&mut lines);
+                }
             }
             Case { impl_lines: lines.clone(), drv_lines: lines, human: hist.iter().map(|s| describe(s)).collect::<Vec<_>>().join(" ; "), bucket: bucket.into() }
         };
-        for a in &ops {
-            cases.push(mk(&[a], "len1"));
-            for b in &ops {
-                cases.push(mk(&[a, b], "len2"));
+        // breadth-first exploration of the abstract state space of ONE context (a, b ∈ {unbound} ∪ 8 values; functions a, b
+        // present or not; the switch): every reachable state (by its shortest history) x every operation
+        let single: Vec<&String> = ops.iter().filter(|o| !o.starts_with("clone")).collect();
+        let state_of = |hist: &[&String]| -> String {
+            let mut sess = crate::server::Session::new();
+            sess.handle("new 0 hm");
+            for op in hist {
+                sess.handle(op);
+            }
+            format!("{}|{}|{}", sess.handle("dump 0"), sess.handle(&format!("callf 0 {} I1", xarg("a"))), sess.handle(&format!("callf 0 {} I1", xarg("b"))))
+        };
+        let mut seen: std::collections::HashMap<String, Vec<&String>> = std::collections::HashMap::new();
+        let mut frontier: Vec<Vec<&String>> = vec![vec![]];
+        seen.insert(state_of(&[]), vec![]);
+        while let Some(h) = frontier.pop() {
+            for op in &single {
+                let mut h2 = h.clone();
+                h2.push(*op);
+                cases.push(mk(&h2, "bfs-transition"));
+                // op-assignments create values outside the finite domain: they are explored as transitions from every
+                // state, but the state space itself is the closure under the other operations
+                let closed = !(op.contains(&xarg(" += ")[1..9]) || unx(op.rsplit(' ').next().unwrap_or("x")).contains("= ") && !unx(op.rsplit(' ').next().unwrap_or("x")).contains(" = "));
+                if !closed {
+                    continue;
+                }
+                let key = state_of(&h2);
+                if !seen.contains_key(&key) && seen.len() < 5000 {
+                    seen.insert(key, h2.clone());
+                    frontier.insert(0, h2);
+                }
             }
         }
-        let n3 = if tier == Tier::Quick { 30_000 } else { 600_000 };
+        let n_states = seen.len();
+        for a in &ops {
+            for b in &ops {
+                if a.starts_with("clone") || b.starts_with("clone") {
+                    cases.push(mk(&[a, b], "len2-clone"));
+                }
+            }
+        }
+        let n3 = if tier == Tier::Quick { 10_000 } else { 600_000 };
         for _ in 0..n3 {
             let h = [rng.pick(&ops), rng.pick(&ops), rng.pick(&ops)];
             cases.push(mk(&h, "len3"));
@@ -725,9 +762,15 @@ impl Property for C04 {
         let n_long = if tier == Tier::Quick { 300 } else { 10_000 };
         for _ in 0..n_long {
             let h: Vec<&String> = (0..60).map(|_| rng.pick(&ops)).collect();
-            cases.push(mk(&h, "long"));
+            let mut lines = vec!["new 0 hm".to_string(), "new 1 hm".to_string()];
+            for op in &h {
+                lines.push((*op).clone());
+                observe(&mut lines);
+            }
+            cases.push(Case { impl_lines: lines.clone(), drv_lines: lines, human: h.iter().map(|s| describe(s)).collect::<Vec<_>>().join(" ; "), bucket: "long".into() });
         }
-        (cases, false)
+        cases.push(Case { impl_lines: vec![], drv_lines: vec![], human: format!("(state space explored: {} abstract states x {} operations)", n_states, single.len()), bucket: format!("bfs-states-{}", n_states) });
+        (cases, n_states < 5000)
     }
     fn judge(&self, case: &Case, out: &Outcome) -> Verdict {
         let mut rejected = false;
